@@ -203,7 +203,32 @@ def run_given(ctx: Ctx, strategy, body, max_examples: int, seed: int, shrink: bo
     except Violation as v:
         lf = ctx.last_fail or {"signature": v.signature, "message": v.message, "case": plain(v.case), "sub": ctx.sub}
         return lf
+    except BaseException as e:  # noqa
+        # A disagreement that does not reproduce when Hypothesis re-executes the case (the code under test leaked
+        # process-global state: a class-level counter, the decimal context ...) surfaces as a Flaky error / exception
+        # group wrapping the Violation. The disagreement was observed against the real code: report it.
+        if ctx.last_fail is not None and _wraps_violation(e):
+            lf = dict(ctx.last_fail)
+            lf["message"] = lf["message"] + " [not reproducible on immediate re-execution: process-global state involved]"
+            return lf
+        raise
     return None
+
+
+def _wraps_violation(e, depth=0):
+    if isinstance(e, Violation):
+        return True
+    if depth > 6:
+        return False
+    for sub in getattr(e, "exceptions", ()) or ():
+        if _wraps_violation(sub, depth + 1):
+            return True
+    for sub in (e.__cause__, e.__context__):
+        if sub is not None and _wraps_violation(sub, depth + 1):
+            return True
+    import hypothesis.errors as he
+
+    return isinstance(e, getattr(he, "Flaky", ())) or isinstance(e, getattr(he, "FlakyFailure", ()))
 
 
 def run_list(ctx: Ctx, cases, body):
